@@ -58,4 +58,67 @@ def replyVersion (k v : Int) : Int := if k = 18 then apiVersionsReplyVersion v e
 def replyHeader (respFlex : Int → Int → Bool) (k v corr : Int) : Bytes :=
   ProtoHeader.responseHeader respFlex k (replyVersion k v) corr
 
+/-! ### the reply stream of one connection (`broker.Server.handleConnection`)
+
+Per frame: `ParseRequest`, `Handler.Handle`, then — `(payload, nil)`: write the payload; `(nil, nil)`: write NOTHING; `(nil, err)`: write
+`buildErrorResponse(header)` (the empty response of that key at the request's version) and carry on.  A client matches replies to
+requests by ORDER, so the stream of frames written must be: one frame per reply-expecting request, in request order, nothing else.
+The one request that expects no reply is a Produce with `acks = 0`. -/
+
+/-- what the connection loop sees of a request: key, version, correlation id, and `ProduceRequest.Acks` (only read for key 0) -/
+structure Req where
+  key : Int
+  ver : Int
+  corr : Int
+  acks : Int
+deriving Repr, DecidableEq
+
+/-- `Handler.Handle`'s result, as the connection loop distinguishes it -/
+inductive Outcome where
+  | payload (body : Bytes)   -- `(EncodeResponse(corr, version, resp), nil)`: `body` = the encoded response after the header
+  | nothing                  -- `(nil, nil)`
+  | error                    -- `(nil, err)`
+deriving Repr, DecidableEq
+
+/-- A request expects a reply unless it is a fire-and-forget Produce (`acks = 0`). -/
+def expectsReply (r : Req) : Bool := !(r.key == 0 && r.acks == 0)
+
+/-- The tail of `handleProduce` — the CODE: `if req.Acks == 0 { return nil, nil }`, whatever happened to the partitions (`failed` =
+number of rejected partitions); otherwise the encoded ProduceResponse (which carries the per-partition error codes). -/
+def produceOutcome (acks : Int) (_failed : Nat) (body : Bytes) : Outcome :=
+  if acks = 0 then .nothing else .payload body
+
+/-- NOT the code: rejected partitions of an acks=0 produce reported as a handler error (kept as the witness of what
+`C11.reply_stream` excludes). -/
+def produceOutcomeErr (acks : Int) (failed : Nat) (body : Bytes) : Outcome :=
+  if acks = 0 then (if failed > 0 then .error else .nothing) else .payload body
+
+/-- `Handle` by outcome class: the Produce arm ends in `produceOutcome`; every other arm returns a payload or an error — never
+`(nil, nil)` (source fact, regenerated: `Gen.C11.noReplyReturns`). `failed`, `body`, `fails` stand for everything else the handlers compute. -/
+def handleOutcomeWith (produce : Int → Nat → Bytes → Outcome) (failed : Req → Nat) (body : Req → Bytes) (fails : Req → Bool) (r : Req) : Outcome :=
+  if r.key = 0 then produce r.acks (failed r) (body r)
+  else if fails r then .error else .payload (body r)
+
+def handleOutcome := handleOutcomeWith produceOutcome
+
+/-- the frame written for request `r` when a frame is written: reply header (correlation id of `r`, header rule at `r`'s reply
+version) followed by the response body / by the empty error response -/
+def replyFrame (respFlex : Int → Int → Bool) (errBody : Int → Int → Bytes) (r : Req) : Outcome → Bytes
+  | .payload body => replyHeader respFlex r.key r.ver r.corr ++ body
+  | _ => ProtoHeader.responseHeader respFlex r.key r.ver r.corr ++ errBody r.key r.ver
+
+/-- frames `handleConnection` writes for ONE request, given `Handle`'s outcome -/
+def framesFor (respFlex : Int → Int → Bool) (errBody : Int → Int → Bytes) (r : Req) (o : Outcome) : List Bytes :=
+  match o with
+  | .payload _ => [replyFrame respFlex errBody r o]
+  | .nothing => []
+  | .error => [replyFrame respFlex errBody r o]
+
+/-- the frames written on a connection for the request sequence `reqs` -/
+def serve (respFlex : Int → Int → Bool) (errBody : Int → Int → Bytes) (handle : Req → Outcome) (reqs : List Req) : List Bytes :=
+  reqs.flatMap fun r => framesFor respFlex errBody r (handle r)
+
+/-- correlation id a client reads from a reply frame -/
+def frameCorr (f : Bytes) : Int := ProtoHeader.toInt32 (ProtoHeader.u32 (f.take 4))
+
 end KafVerif.ApiTable
